@@ -121,6 +121,17 @@ def _job(idx: int) -> List[Dict[str, Any]]:
         src = I.to_seq(calls[-1].data["args"][0], st, calls[-1].node)
         ret = el.items[1]
         se = src.elem if src is not None else None
+        if src is not None and src.fixed is not None and seq.fixed is not None and len(src.fixed) == len(seq.fixed) and len(src.fixed) >= 1:
+            # explicit lists (an exact number of teams written out): position by position
+            pairs_ = [(a_, b_.items[1]) for a_, b_ in zip(src.fixed, seq.fixed) if isinstance(a_, Num) and isinstance(b_, TupleV) and len(b_.items) == 2 and isinstance(b_.items[1], Num)]
+            if len(pairs_) == len(src.fixed) and all(a_.sym is not None and b_.sym is not None for a_, b_ in pairs_):
+                same = all(to_poly(a_.sym) is not None and to_poly(a_.sym) == to_poly(b_.sym) for a_, b_ in pairs_)
+                lossy_: List = []
+                for a_, _ in pairs_:
+                    find_calls(a_.sym, lambda n_: n_ in ("round", "int", "math.floor", "math.ceil", "math.trunc"), lossy_)
+                inst("R11.7", "HOLDS" if same else ("VIOLATED" if lossy_ else "UNDECIDED"), f"ranks are computed from the returned probabilities ({case})",
+                     "" if same else ("the numbers handed to the ranking are a rounded/truncated image of the probabilities that are returned" if lossy_ else "the ranked numbers are not the returned probabilities, position by position"))
+                continue
         if not isinstance(se, Num) or se.sym is None or ret.sym is None:
             inst("R11.7", "UNDECIDED", f"ranks are computed from the returned probabilities ({case})", "the ranked or the returned numbers have no symbolic term")
             continue
